@@ -6,10 +6,80 @@ from .. import wraprec as W
 from . import wrapcommon as WC
 
 
+def exact_threshold_rhomax():
+    """rho_max values for which the branch condition N <= 0.5 Dmax ln(n/ln n) holds with EQUALITY in float64 at a
+    state the schedule reaches -- the boundary of the creation / round-robin decision (found by scanning the
+    neighbouring doubles of the real solution with the library's own expression; input selection only)"""
+    import math
+    import numpy as np
+    out = []
+    for (N, n) in ((4, 20), (4, 8), (8, 40), (16, 80), (8, 56)):
+        f = math.log(n / math.log(n))
+        r = math.exp(-0.5 * math.log(2) * f / N)
+        cand = r
+        for _ in range(400):
+            cand = math.nextafter(cand, 0.0)
+        for _ in range(800):
+            cand = math.nextafter(cand, 1.0)
+            dmax = np.log(2) / np.log(1 / cand)
+            if 0.5 * dmax * np.log(n / np.log(n)) == N and 2 <= 0.5 * dmax * np.log(2 / np.log(2)):
+                out.append((cand, N, n))
+                break
+    return out
+
+
+def exact_threshold_sessions(chk, tier):
+    """at such a rho_max the real-valued condition is undecidable for the tables, but pull and receive_reward must
+    still take the SAME branch: the trace has to be explained by the table with Cr(N,n) true or by the one with
+    Cr(N,n) false"""
+    import copy, os, json
+    from .. import consts as K
+    from .. import common as C
+    found = exact_threshold_rhomax()
+    chk.notes["exact_threshold_rhomax"] = [list(x) for x in found]
+    jobs = []
+    for j, (rm, N, n) in enumerate(found):
+        for base in ("T_HOO", "HCT"):
+            jobs.append({"id": 1050000 + 10 * j + (0 if base == "T_HOO" else 1), "algo": "POO", "kind": "bin", "K": 2, "D": 1, "box": [[0.0, 1.0]], "n": 150, "T": 150,
+                         "prm": {"rhomax": rm, "numax": 1, "base": base}, "pattern": "g", "seed": 99 + j, "_Nn": (N, n)})
+    if not jobs:
+        return
+    trs = S.pmap(W.run_wrap, jobs) if len(jobs) >= 4 else [W.run_wrap(c) for c in jobs]
+    variants = []
+    for t, c in zip(trs, jobs):
+        if "machinery" in t:
+            raise C.Machinery(t["machinery"])
+        N, n = c["_Nn"]
+        k = N.bit_length() - 1
+        for v, thr_k in enumerate((n, n + N)):          # Cr(N, n) true / false
+            tv = copy.deepcopy(t)
+            tv["id"] = t["id"] * 10 + v
+            tv["P"]["thr"] = list(t["P"]["thr"])
+            tv["P"]["thr"][k] = thr_k
+            tv["P"]["amb"] = 0
+            variants.append(tv)
+    verd, st, ds, cmd = C.validate_traces("Trace_Wrap.tla", "Trace_Wrap.cfg", variants, chk.wd, "exact")
+    chk.states += ds
+    chk.transitions += st
+    chk.traces_validated += len(trs)
+    for t in trs:
+        a, b = verd[t["id"] * 10], verd[t["id"] * 10 + 1]
+        if a[0] != "ok" and b[0] != "ok":
+            cl = a[0] if a[0].startswith("poo.") else b[0]
+            if cl.startswith("poo."):
+                path = os.path.join(C.OUT, "replay", "C10_exact_%s.json" % t["id"])
+                os.makedirs(os.path.dirname(path), exist_ok=True)
+                json.dump({"module": "Trace_Wrap.tla", "cfg": "Trace_Wrap.cfg", "verdict": [cl, a[1]], "trace": t}, open(path, "w"))
+                chk.violations.append(({"clause": cl, "what": "no branch table explains the run at an exact-threshold rho_max", "rhomax": t["cfg"]["prm"]["rhomax"], "verdicts": [a[:2], b[:2]]}, path))
+        else:
+            chk.nontrivial.add(F.trace_key(t))
+
+
 def run(tier):
     chk = F.Check("C10", tier)
     WC.poo_models(chk, tier)
     WC.poo_real_tables(chk, tier)
+    exact_threshold_sessions(chk, tier)
     trs = S.pmap(W.run_wrap, WC.poo_cfgs(tier, 1000000))
     chk.validate("Trace_Wrap.tla", "Trace_Wrap.cfg", trs, "poo", own=["poo."], nontrivial=lambda t: t["learners"] >= 5)
     t = trs[0]
